@@ -377,6 +377,17 @@ func initTopicP2P(t *Topic, sreg *ClientComMessage) error {
 				users[u2].Access.Anon,
 				users[u2].Access.Auth,
 				types.ModeCP2P)
+			if stopic != nil {
+				// The requester may have been subscribed before: restore the previous grant. Otherwise the user
+				// could delete the subscription and subscribe again to get rid of a restriction set by user2.
+				prev, err := store.Subs.Get(t.name, userID1, true)
+				if err != nil {
+					return err
+				}
+				if prev != nil {
+					userData.modeGiven = prev.ModeGiven
+				}
+			}
 			// Sanity check, same as for user2's ModeGiven above: the default access of an account may hold
 			// permissions which make no sense in a P2P topic (the default Auth includes 'S').
 			userData.modeGiven = userData.modeGiven&types.ModeCP2P | types.ModeApprove
